@@ -1118,18 +1118,18 @@ PARTS = [
          shrink_budget={'quick': 3, 'thorough': 6},
          floors={'gate-shut': 0.2, 'gate-open-with-warnings': 0.08}),
     Part('history', _run_history, strategy=_strategy_history,
-         examples={'quick': 3200, 'thorough': 120000},
+         examples={'quick': 3200, 'thorough': 60000},
          floors={'finalise-backup': 0.2, 'finalise-backup-occupied': 0.1, 'finalise-backup-gap': 0.03,
                  'finalise-append-existing': 0.1, 'discard-nonempty': 0.2, 'chdir-while-pending': 0.15,
                  'reopen-w->a': 0.03, 'reopen-w->w': 0.03, 'reopen-a->a': 0.03, 'open-r+': 0.05,
                  'temp-on-other-filesystem': 0.15, 'finalise-multi': 0.1}),
     Part('crash-points', _run_crash, strategy=_strategy_crash,
-         examples={'quick': 640, 'thorough': 16000},
+         examples={'quick': 640, 'thorough': 8000},
          floors={'between-backup-and-move': 0.3, 'append-to-existing': 0.12, 'several-files': 0.2,
                  'backup-slot-occupied': 0.15, 'fault-at-handle.write': 0.2, 'fault-at-os.remove': 0.2,
                  'temp-on-other-filesystem': 0.1}),
     Part('writers-defer', _run_writers, strategy=_strategy_writers,
-         examples={'quick': 320, 'thorough': 6000},
+         examples={'quick': 320, 'thorough': 3000},
          floors={'destination-preexists': 0.3, 'end-discard': 0.08, 'end-discard-then-finalise': 0.08, 'end-finalise': 0.3,
                  'writer-top': 0.15, 'writer-pdb': 0.15, 'writer-gro': 0.15, 'writer-dssp': 0.15, 'writer-contacts': 0.15,
                  'writer-contacts-direct': 0.15, 'writer-atomtypes': 0.1, 'writer-nbparams': 0.1}),
